@@ -765,11 +765,11 @@ LAW(L_lap, RC, 10000, 1000000, 120, "two or more optimal assignments (tie)", 20,
   LapCase L; L.kind = genKind(c);
   switch (c.weighted({2, 3, 3, 3, 2, 2, 1, 1})) { case 0: L.n = 1; break; case 1: L.n = 2; break; case 2: L.n = 3; break; case 3: L.n = 4; break; case 4: L.n = 5; break; case 5: L.n = 6; break; case 6: L.n = 7; break; default: L.n = 0; }
   L.m = c.below(12) == 11 ? otherDim(c, L.n) : L.n;
-  int style = static_cast<int>(c.weighted({3, 3, 3, 2}));  // cost range: {0,1}, [-3,3], [-20,20], real
-  L.integer = style != 3;
+  int style = static_cast<int>(c.weighted({3, 3, 3, 2, 3}));  // cost range: {0,1}, [-3,3], [-20,20], real, decimal grid k/10-5
+  L.integer = style < 3;
   size_t r = L.n, cc = L.m; normShape(L.kind, r, cc); L.n = r; L.m = cc;
   L.cost = RM(r, cc);
-  for (auto& x : L.cost.v) x = style == 0 ? static_cast<double>(c.below(2)) : style == 1 ? c.ival(3) : style == 2 ? c.ival(20) : c.real(-10, 10);
+  for (auto& x : L.cost.v) x = style == 0 ? static_cast<double>(c.below(2)) : style == 1 ? c.ival(3) : style == 2 ? c.ival(20) : style == 3 ? c.real(-10, 10) : static_cast<double>(c.below(101)) / 10.0 - 5;  // (non-dyadic decimals: many ties up to rounding)
   c.desc << "lap " << KN[L.kind] << ":" << show(L.cost);
   checkLap(c, L);
 }
